@@ -18,7 +18,7 @@ CHECKS = {
     "C01": ("induction over the history: one CBMC query per public operation from an arbitrary valid state of each shape in the grid, constructors as base cases, plus multi-step histories", "DESIGN.md §2 C01", A + "; " + BS),
     "C02": ("all accessor forms agree on the cell address (symbolic window / shape grid) and every out-of-range coordinate in the full usize range panics; index kernels additionally decided for all 64-bit inputs and shapes in checked and wrapping arithmetic", "DESIGN.md §2 C02", A + "; " + B),
     "C03": ("symbolic (start,end) at nesting depth 1..3 on all receivers with address-level oracle, write-through, invalid windows must panic; window arithmetic kernel decided for unbounded parents", "DESIGN.md §2 C03", A + "; " + B),
-    "C04": ("every mutating trait operation applied through a TooDeeViewMut window of a stack parent: a symbolic parent cell outside the rectangle is unchanged, inside it equals the operation's owned-array model", "DESIGN.md §2 C04", A),
+    "C04": ("every mutating trait operation applied through a TooDeeViewMut window of a stack parent: a symbolic parent cell outside the rectangle is unchanged, inside it equals the operation's owned-array model; the mutable-view and mutable-cursor kernels of Engine B (every access inside the window) for unbounded shapes", "DESIGN.md §2 C04", A + "; " + B),
     "C05": ("drop ledger (per-element live count asserted in Drop, symbolic probes for live/distinct/all-dropped) over every operation that moves or transfers elements, incl. zero-sized elements", "DESIGN.md §2 C05", A),
     "C06": ("insert/push of a row or column at a symbolic index on every shape of the grid, exact and spare capacity, Copy / owning / zero-sized elements; bad index or length must panic", "DESIGN.md §2 C06", A + "; " + BS),
     "C07": ("remove/pop with a symbolic index and a symbolic (front, back) or scripted consumption of the drain, checked element by element against the ideal sequence; post-state by symbolic probe", "DESIGN.md §2 C07", A + "; " + BS),
@@ -65,7 +65,7 @@ def build():
         },
         "engines": [
             {"name": "kani-cbmc", "path": "/verif/harness", "serves_properties": sorted(CHECKS), "kind_free_text": A},
-            {"name": "mirsmt", "path": "/verif/mirsmt", "serves_properties": ["C01", "C02", "C03", "C06", "C07", "C08", "C09", "C10", "C11", "C12", "C13", "C14", "C20"], "kind_free_text": B + "; " + BS + "; " + BI},
+            {"name": "mirsmt", "path": "/verif/mirsmt", "serves_properties": ["C01", "C02", "C03", "C04", "C06", "C07", "C08", "C09", "C10", "C11", "C12", "C13", "C14", "C20"], "kind_free_text": B + "; " + BS + "; " + BI},
         ],
         "checks": checks,
         "notes": "Exit codes: 0 held, 1 VIOLATION (replayed natively first), 2 inconclusive (timeout, unwinding bound, non-reproducing counterexample). Genuine defects found and repaired are listed in /verif/known_findings.json (fixed) and DESIGN.md.",
